@@ -82,7 +82,17 @@ static Result judge(const Case& c) {
   Result r; r.klass = c.campaign.c_str();
   const uint8_t* d = c.data.data(); size_t n = c.data.size();
   va::reset_counters();
-  ref::Policy pol; pol.max_depth = L; pol.max_array_count = va::g.single_cap / sizeof(cbor_item_t*); pol.max_map_count = va::g.single_cap / sizeof(struct cbor_pair); pol.max_string_len = va::g.single_cap;
+  ref::Policy pol; pol.max_depth = L;
+  {  // where (if anywhere) the allocator refuses a request is observed, not predicted
+    uint64_t saved0 = va::g.refused_single; va::g.refused_single = 0;
+    struct cbor_load_result r0; cbor_item_t* it0 = cbor_load(d, n, &r0);
+    if (it0) cbor_decref(&it0);
+    else if (va::g.refused_single) {
+      ref::TokStream t = ref::tokenise(d, n);
+      for (auto& h : t.heads) { size_t q = h.off + (size_t)h.total; va::g.refused_single = 0; struct cbor_load_result r1; cbor_item_t* it1 = cbor_load(d, q, &r1); if (it1) cbor_decref(&it1); if (va::g.refused_single) { pol.refuse_at = q; break; } }
+    }
+    va::g.refused_single = saved0;
+  }
   ref::Classified model = ref::classify(d, n, pol);
   // the reference with an unlimited stack tells whether the nesting limit is what decides this input
   ref::Policy unl = pol; unl.max_depth = (size_t)-1;
